@@ -135,6 +135,7 @@ func main() {
 				}
 			}()
 			run(r, p)
+			rules.Generic(id, r, p)
 		}()
 		if st, ok := selftest[id]; ok {
 			r.Extra("variants", st)
